@@ -327,8 +327,20 @@ func (eval Evaluator) InnerFunction(ctIn *Ciphertext, batchSize, n int, f func(a
 
 	ringQ := params.RingQ().AtLevel(levelQ)
 
-	opOut.Resize(opOut.Degree(), levelQ)
-	*opOut.MetaData = *ctIn.MetaData
+	// The result has the degree and the metadata of the input (read before the
+	// receiver, which may be the input, is written to): a receiver of larger degree
+	// must not keep components of what it held before.
+	metadata := *ctIn.MetaData
+	opOut.Resize(ctIn.Degree(), levelQ)
+	*opOut.MetaData = metadata
+
+	if n == 1 {
+		if opOut != ctIn {
+			opOut.Value[0].CopyLvl(levelQ, ctIn.Value[0])
+			opOut.Value[1].CopyLvl(levelQ, ctIn.Value[1])
+		}
+		return
+	}
 
 	P0 := params.RingQ().NewPoly()
 	P1 := params.RingQ().NewPoly()
@@ -347,9 +359,7 @@ func (eval Evaluator) InnerFunction(ctIn *Ciphertext, batchSize, n int, f func(a
 		ctInNTT.Copy(ctIn)
 	}
 
-	if n == 1 {
-		opOut.Copy(ctIn)
-	} else {
+	{
 
 		// Accumulator mod Q
 		accQ, err := NewCiphertextAtLevelFromPoly(levelQ, []ring.Poly{P0, P1})
@@ -437,10 +447,14 @@ func (eval Evaluator) InnerFunction(ctIn *Ciphertext, batchSize, n int, f func(a
 		}
 	}
 
-	if !ctIn.IsNTT {
+	// The accumulation ran in the NTT domain (and left its flag in the receiver):
+	// back to the domain of the input.
+	if !metadata.IsNTT {
 		ringQ.INTT(opOut.Value[0], opOut.Value[0])
 		ringQ.INTT(opOut.Value[1], opOut.Value[1])
 	}
+
+	*opOut.MetaData = metadata
 
 	return
 }
